@@ -143,7 +143,10 @@ def mkgrid(g: dict):
     from lcm import DiscreteGrid, LinspaceGrid, LogspaceGrid
 
     if g["k"] == "disc":
-        cls = make_dataclass("Cat", [(f"c{i}", int, field(default=i)) for i in range(g["n"])])
+        if g.get("float_codes"):
+            cls = make_dataclass("Cat", [(f"c{i}", float, field(default=float(i))) for i in range(g["n"])])
+        else:
+            cls = make_dataclass("Cat", [(f"c{i}", int, field(default=i)) for i in range(g["n"])])
         return DiscreteGrid(cls)
     if g["k"] == "lin":
         return LinspaceGrid(start=num_py(g["a"]), stop=num_py(g["b"]), n_points=g["n"])
